@@ -39,6 +39,7 @@ func checkC07(r *Report, p *Program) {
 	r09_tables(r, p, "R07.12")
 	conditionTables(r, p, "R07.13")
 	claimsTables(r, p, "R07.14")
+	lastAppliedIsHookAnswer(r, p, "R07.15")
 }
 
 // r07_9: which fields are revisioned. The default (all of spec) applies whenever the
@@ -759,7 +760,7 @@ func r07_6b(r *Report, p *Program) {
 func r07_tables(r *Report, p *Program) {
 	const rule = "R07.11"
 	r.Rule(rule, "syncRollingUpdate, loop over the latest desired children: ¬rolling kind ⇒ nothing; unclaimed ⇒ claim for latest; claimed by latest ⇒ nothing; claimed by another ⇒ move iff observed ∧ merge computable ∧ no-op. Loop over the hook's children: a child is passed over ⇔ its kind is not rolling ∨ it is on latest; the claim looked at is claimed[group,kind][name] whenever that kind has claims")
-	r.Floor(rule, 2)
+	r.Floor(rule, 3)
 	f := fn(r, p, rule, "controller/composite.parentController.syncRollingUpdate")
 	if f == nil {
 		return
@@ -948,6 +949,19 @@ func r07_tables(r *Report, p *Program) {
 		}
 	}
 	r.Check(rule, FK(f)+"[second-loop-table]", p.Pos(f.Pos()), ok2, "skip ⇔ ¬rolling ∨ on latest; claim = claimed[group,kind][name]", why2)
+	// the gate looks at the latest revision AFTER the pre-pass gave it the unclaimed and the no-op children
+	okG, whyG := true, ""
+	for _, b := range inner1.BodyBlocks() {
+		for _, in := range b.Instrs {
+			if isEff(in) && (engine.Query{Fn: f, From: []engine.Point{engine.After(gi)}, Target: func(x ssa.Instruction) bool { return x == in }}).Find() != nil {
+				okG, whyG = false, "the health gate is evaluated before the pre-pass assigns children to the latest revision ("+p.InstrPos(in)+" runs after it): children the pre-pass has just put on the latest revision — not yet observed, or failing their status checks — are not looked at, and a move slips through"
+			}
+		}
+	}
+	if !loop2.Contains(gi) {
+		okG, whyG = false, "the health gate is not evaluated at the point of the move (inside the loop over the hook's children): its answer does not reflect the revision's children at that point"
+	}
+	r.Check(rule, FK(f)+"[gate-after-pre-pass]", p.InstrPos(gi), okG, "gate evaluated at the move, after the pre-pass", whyG)
 }
 
 func other(fld string) string {
